@@ -405,7 +405,13 @@ func writeEvidence(p *prop, tier string, seed uint64, a *agg, bi *buildInfo, wal
 		"wall_s":      wall,
 		"violations":  len(vio),
 	}
-	os.MkdirAll(filepath.Join(verifDir, "evidence"), 0755)
 	b, _ := json.MarshalIndent(ev, "", " ")
+	if repoDir != "/repo" {
+		// a scratch copy (VERIF_REPO: sensitivity mutants, seeded changes): the evidence
+		// files under /verif/evidence describe /repo only
+		os.WriteFile(filepath.Join(verifDir, ".build", p.ID, "evidence.scratch.json"), append(b, '\n'), 0644)
+		return
+	}
+	os.MkdirAll(filepath.Join(verifDir, "evidence"), 0755)
 	os.WriteFile(filepath.Join(verifDir, "evidence", p.ID+".json"), append(b, '\n'), 0644)
 }
